@@ -1,12 +1,23 @@
 (** C11  The list library computes what its specification says.
-    Property theorems only - PARTIAL. Proved here: the native part (car cdr cons eqv? apply).
-    The procedures written in Scheme in base.sld (append map for-each fold-left fold-right list-tail
-    list-ref last-pair memq memv equal? c[ad]r ...) are executed by the model's evaluator on the text
-    that is in /repo now and checked against an independent model on python lists on every run;
-    their inductive specifications are not proved in this file (see Proofs/LibProofs.v if present). *)
-From Coq Require Import List.
-From RV Require Import Model.Common Model.Value Model.Builtins Model.Eval Spec.EvalSpec Proofs.ListProofs.
+    Property theorems only.
+
+    Native part (car cdr cons eqv? apply): equations about [builtin_call] and the rule for apply.
+
+    Scheme part (base.sld): [lib_call name args y] says that the procedure the library defines under
+    [name] - the closure created from the text of base.sld that is in /repo now (Gen/BaseSld.v is
+    regenerated on every run) - applied to [args] yields [y] by the rules of Spec/EvalSpec.v, in every
+    state that holds the library, touching no existing frame, vector, output or tick.
+    [C11_library_after_start_up] shows that the state after start-up holds the library and binds the
+    global names to those closures; [C11_lib_call_runs] that the evaluator of the model then returns [y].
+    The specification functions ([vtail], [vmem], [vequal], [is_proper], [vapp_tail], [vlast]) are in
+    Spec/ListSpec.v. For the higher-order procedures the procedure argument is assumed to compute a
+    function without side effects ([pure_fun1], [pure_fun2]); the order and number of calls with
+    side effects is covered by the correspondence check (tick traces), not by these theorems. *)
+From Coq Require Import ZArith List.
+From RV Require Import Model.Common Model.Num Model.Value Model.Builtins Model.Eval Spec.EvalSpec Spec.ListSpec
+  Proofs.ListProofs Proofs.LibBase Proofs.LibLists Proofs.LibEqual Proofs.LibHigher Proofs.LibAppend Proofs.LibBoot.
 Import ListNotations.
+Local Open Scope Z_scope.
 
 Theorem C11_car_of_pair : forall a b st, builtin_call n_car [VPair a b] st = (Ok a, st).
 Proof. exact car_of_pair. Qed.
@@ -34,3 +45,100 @@ Theorem C11_eqv_on_pairs : forall a b c d st,
 Proof. exact eqv_on_pairs. Qed.
 Theorem C11_eqv_on_empty_lists : forall st, builtin_call n_eqv [VNil; VNil] st = (Ok (VBool true), st).
 Proof. exact eqv_on_empty_lists. Qed.
+
+(** * the procedures written in Scheme *)
+
+(** the compositions of car and cdr: the component the name spells *)
+Theorem C11_caar : forall a b c, lib_call [99;97;97;114] [VPair (VPair a b) c] a.
+Proof. exact caar_spec. Qed.
+Theorem C11_cadr : forall a b c, lib_call [99;97;100;114] [VPair a (VPair b c)] b.
+Proof. exact cadr_spec. Qed.
+Theorem C11_cdar : forall a b c, lib_call [99;100;97;114] [VPair (VPair a b) c] b.
+Proof. exact cdar_spec. Qed.
+Theorem C11_cddr : forall a b c, lib_call [99;100;100;114] [VPair a (VPair b c)] c.
+Proof. exact cddr_spec. Qed.
+Theorem C11_caaar : forall a b c d, lib_call [99;97;97;97;114] [VPair (VPair (VPair a b) c) d] a.
+Proof. exact caaar_spec. Qed.
+Theorem C11_caadr : forall a b c d, lib_call [99;97;97;100;114] [VPair a (VPair (VPair b c) d)] b.
+Proof. exact caadr_spec. Qed.
+Theorem C11_cadar : forall a b c d, lib_call [99;97;100;97;114] [VPair (VPair a (VPair b c)) d] b.
+Proof. exact cadar_spec. Qed.
+Theorem C11_caddr : forall a b c d, lib_call [99;97;100;100;114] [VPair a (VPair b (VPair c d))] c.
+Proof. exact caddr_spec. Qed.
+Theorem C11_cdaar : forall a b c d, lib_call [99;100;97;97;114] [VPair (VPair (VPair a b) c) d] b.
+Proof. exact cdaar_spec. Qed.
+Theorem C11_cdadr : forall a b c d, lib_call [99;100;97;100;114] [VPair a (VPair (VPair b c) d)] c.
+Proof. exact cdadr_spec. Qed.
+Theorem C11_cddar : forall a b c d, lib_call [99;100;100;97;114] [VPair (VPair a (VPair b c)) d] c.
+Proof. exact cddar_spec. Qed.
+Theorem C11_cdddr : forall a b c d, lib_call [99;100;100;100;114] [VPair a (VPair b (VPair c d))] d.
+Proof. exact cdddr_spec. Qed.
+
+(** (list a ...) is the list of its arguments; (make-list k x) has k elements x *)
+Theorem C11_list : forall args, lib_call [108;105;115;116] args (vlist args).
+Proof. exact list_spec. Qed.
+Theorem C11_make_list : forall k fill, Z.of_nat k <= i32_max ->
+  lib_call n_make_list [vint (Z.of_nat k); fill] (vlist (repeat fill k)).
+Proof. exact make_list_spec. Qed.
+
+(** predicates *)
+Theorem C11_null : forall x, lib_call [110;117;108;108;63] [x] (VBool (is_nil x)).
+Proof. exact null_spec. Qed.
+Theorem C11_list_p : forall x, lib_call n_listp [x] (VBool (is_proper x)).
+Proof. exact listp_spec. Qed.
+Theorem C11_atom_p : forall x, lib_call n_atomp [x] (VBool (negb (is_pair x) && negb (is_nil x))).
+Proof. exact atomp_spec. Qed.
+
+(** (append l1 ... ln t): the elements in order, the last argument shared as the tail whatever it is *)
+Theorem C11_append : forall ls t, lib_call n_append (map vlist ls ++ [t]) (vapp_tail (concat ls) t).
+Proof. exact append_spec. Qed.
+Theorem C11_append_no_argument : lib_call n_append [] VNil.
+Proof. exact append_none. Qed.
+
+(** (list-tail x k), (list-ref x k) for every k within the chain of pairs; (last-pair x) *)
+Theorem C11_list_tail : forall k x y, vtail k x = Some y -> Z.of_nat k <= i32_max ->
+  lib_call n_list_tail [x; vint (Z.of_nat k)] y.
+Proof. exact list_tail_spec. Qed.
+Theorem C11_list_ref : forall k x y z, vtail k x = Some (VPair y z) -> Z.of_nat k <= i32_max ->
+  lib_call n_list_ref [x; vint (Z.of_nat k)] y.
+Proof. exact list_ref_spec. Qed.
+Theorem C11_last_pair : forall a b, lib_call n_last_pair [VPair a b] (vlast a b).
+Proof. exact last_pair_spec. Qed.
+
+(** membership and equality *)
+Theorem C11_memv : forall obj l, lib_call n_memv [obj; vlist l] (vmem obj l).
+Proof. exact memv_spec. Qed.
+Theorem C11_memq : forall obj l, lib_call n_memq [obj; vlist l] (vmem obj l).
+Proof. exact memq_spec. Qed.
+Theorem C11_equal : forall x y, lib_call n_equalp [x; y] (VBool (vequal x y)).
+Proof. exact equalp_spec. Qed.
+
+(** the higher-order procedures on a procedure argument that computes a function *)
+Theorem C11_map : forall p f l, pure_fun1 p f -> lib_call n_map [p; vlist l] (vlist (map f l)).
+Proof. exact map_spec. Qed.
+Theorem C11_for_each : forall p f l, pure_fun1 p f -> lib_call n_for_each [p; vlist l] VVoid.
+Proof. exact for_each_spec. Qed.
+Theorem C11_fold_left : forall p g l init, pure_fun2 p g ->
+  lib_call n_fold_left [p; init; vlist l] (fold_left (fun acc x => g x acc) l init).
+Proof. exact fold_left_spec. Qed.
+Theorem C11_fold_right : forall p g l init, pure_fun2 p g ->
+  lib_call n_fold_right [p; init; vlist l] (fold_right g init l).
+Proof. exact fold_right_spec. Qed.
+
+(** * the tie to the running interpreter *)
+
+(** after start-up the state holds the library, and the global names are bound to its closures *)
+Theorem C11_library_after_start_up :
+  (exists i st, boot = Some (i, st)) /\ has_library boot_state base_frame /\
+  Forall (fun name => exists c, code_of name = Some c /\
+            env_get boot_state boot_root (s name) = Some (closure c base_frame)) exported_list_procs.
+Proof. exact (conj boot_succeeds (conj boot_has_library boot_binds_library)). Qed.
+
+(** and there the evaluator of the model returns what [lib_call] states *)
+Theorem C11_lib_call_runs : forall name args y, lib_call name args y ->
+  forall st lf, has_library st lf ->
+  exists c st', code_of name = Some c /\ keeps st st' /\
+    (forall env, exists n, forall fuel, (n <= fuel)%nat -> apply_proc fuel (closure c lf) args env st = (Ok y, st')) /\
+    (forall fuel env r st1, apply_proc fuel (closure c lf) args env st = (r, st1) -> r <> OutOfFuel ->
+       r = Ok y /\ st1 = st').
+Proof. exact lib_call_runs. Qed.
